@@ -71,7 +71,8 @@ MkMod(k, c, s, d) ==
     [] k = "nf2"         -> Mod("nf2", "normfactor", <<>>, <<>>)
     [] k = "lumi"        -> LumiMod
     [] k = "normsysA"    -> Mod("Alpha_sys", "normsys", <<RN(10 - c - s, 10)>>, <<RN(10 + 2 * c + s, 10)>>)
-    [] k = "normsysB"    -> Mod("t_ns", "normsys", <<RN(20 - c - 2 * s, 20)>>, <<RN(20 + 3 * c + s, 20)>>)
+    \* the second normsys name ends in _<digits>: adversarial against the gamma_<name>_<index> grammar of ROOT names (an alpha_ name keeps its suffix)
+    [] k = "normsysB"    -> Mod("t_ns_1", "normsys", <<RN(20 - c - 2 * s, 20)>>, <<RN(20 + 3 * c + s, 20)>>)
     [] k = "histosys"    -> Mod("Alpha_sys", "histosys",
                                 [b \in DOMAIN d |-> RAdd(RMul(d[b], RN(9, 10)), RN(b, 10))],
                                 [b \in DOMAIN d |-> RAdd(RMul(d[b], RN(6, 5)), RN(s, 2))])
@@ -94,10 +95,10 @@ MkMeas(w, name, poi, L, sg, nfc, F) ==
                   ELSE IF nfc = "custom" THEN <<[NoPar EXCEPT !.name = n, !.inits = <<NfInit(n)>>, !.bounds = <<NfBounds(n)>>, !.fixed = n \in F]>>
                   ELSE <<[NoPar EXCEPT !.name = n, !.inits = <<NfInit(n)>>, !.fixed = n \in F]>>
       sys(n) == IF n \in F /\ n \in ParamNames(w) THEN <<[NoPar EXCEPT !.name = n, !.fixed = TRUE]>> ELSE <<>>
-  IN [name |-> name, poi |-> poi, pars |-> nfpar("mu") \o lumi \o sys("Alpha_sys") \o nfpar("nf2") \o sys("t_ns")]
+  IN [name |-> name, poi |-> poi, pars |-> nfpar("mu") \o lumi \o sys("Alpha_sys") \o nfpar("nf2") \o sys("t_ns_1")]
 
-ScalarPars(w) == ParamNames(w) \cap {"mu", "nf2", "lumi", "Alpha_sys", "t_ns"}
-NameRank(n) == CASE n = "mu" -> 1 [] n = "nf2" -> 2 [] n = "lumi" -> 4 [] n = "Alpha_sys" -> 8 [] n = "t_ns" -> 16 [] OTHER -> 0
+ScalarPars(w) == ParamNames(w) \cap {"mu", "nf2", "lumi", "Alpha_sys", "t_ns_1"}
+NameRank(n) == CASE n = "mu" -> 1 [] n = "nf2" -> 2 [] n = "lumi" -> 4 [] n = "Alpha_sys" -> 8 [] n = "t_ns_1" -> 16 [] OTHER -> 0
 RECURSIVE SetCode(_)
 SetCode(S) == IF S = {} THEN 0 ELSE LET n == CHOOSE z \in S : TRUE IN NameRank(n) + SetCode(S \ {n})
 
